@@ -217,8 +217,9 @@ EXTLA = [
                                 ("Mx", [(S(T("a"), L(A(T("a"), T("b"), T("c")), False)), "M")]),
                                 ("Nx", [(S(T("a"), L(A(T("a"), T("b"), T("c")), False), T("d")), "N")])]),
     EG("z02", "abcd", ["Sx"], [("Sx", [(S(LA("Pa", "Pb"), N("Xx")), "AltX"), (S(LA("Pa", "!Pb"), N("Yy")), "AltY"), (S(LA("!Pa"), N("Zz")), "AltZ")]),
-                                ("Pa", [(seq("a"), None)]), ("Pb", [(seq("a", "b"), None)]),
-                                ("Xx", [(S(T("a"), T("b"), O(T("c"))), "X")]), ("Yy", [(S(T("a"), L(T("a"), True), O(T("c"))), "Y")]), ("Zz", [(S(L(T("d"), True), O(T("a"))), "Z")])]),
+                                ("Pa", [(seq("a", "a"), None)]), ("Pb", [(seq("a", "a", "b"), None)]),
+                                ("Xx", [(S(T("a"), T("a"), T("b"), O(T("c"))), "X")]), ("Yy", [(S(T("a"), T("a"), L(A(T("a"), T("c")), True)), "Y")]),
+                                ("Zz", [(S(T("a"), L(T("b"), True)), "Z1"), (S(T("a"), T("d")), "Z2")])]),
     EG("z03", "abc", ["Sx"], [("Sx", [(S(L(N("It"), True), T("c")), "Top")]),
                                ("It", [(S(LA("Qq"), T("a"), T("a")), "Pair"), (S(LA("!Qq"), T("a")), "Single"), (seq("b"), "B")]),
                                ("Qq", [(seq("a", "a", "b"), None), (seq("a", "a", "c"), None)])]),
